@@ -157,6 +157,9 @@ func startMuts(m *robustMaterial, fn string) []startMut {
 		add("ids", "plus-empty", func(p *startParams) { p.ids = append(p.ids, "") })
 		add("ids", "plus-zero-scalar", func(p *startParams) { p.ids = append(p.ids, "\x00") })
 		add("ids", "plus-same-scalar", func(p *startParams) { p.ids = append(p.ids, "\x00a") })
+		// the same scalar image as the LAST / a middle id: in the byte-wise sorted list the two are not neighbours
+		add("ids", "plus-same-scalar-far", func(p *startParams) { p.ids = append(p.ids, party.ID("\x00"+string(p.ids[len(p.ids)-1]))) })
+		add("ids", "plus-same-scalar-mid", func(p *startParams) { p.ids = append(p.ids, party.ID("\x00"+string(p.ids[1]))) })
 		if kind == "sign" {
 			add("ids", "all", func(p *startParams) { p.ids = cloneIDs(m.ids) })
 		} else {
